@@ -54,7 +54,8 @@ class HeapEnv(ME.Env):
                 return float(e.get('v', 0))
             except (TypeError, ValueError):
                 return 0.0
-        if e['k'] == 'BinaryOperator' and e.get('op') in ('==', '!=', '<', '>', '<=', '>=', '-', '+', '||', '&&'):
+        if e['k'] == 'BinaryOperator' and e.get('op') in ('==', '!=', '<', '>', '<=', '>=', '-', '+', '||', '&&') \
+                and any(isinstance(v_, float) for v_ in env.values()):
             a = self.eval(e['c'][0], env, universe)
             if isinstance(a, float) or (isinstance(a, int) and e['op'] in ('||', '&&')):
                 b = self.eval(e['c'][1], env, universe)
